@@ -14,7 +14,19 @@ THEMES = {
  "D": "two cooperating sites: the change is spread over two places (a helper and its caller, a constant and one of its users, a producer and a "
       "consumer) so that each place looks fine when read alone; only their combination breaks the property, and only for a specific input or sequence.",
 }
-order = "BCDA" if wave.endswith("8") else "ABCD"
+THEMES.update({
+ "E": "glue and conversions: option handling, text<->number conversion, []byte<->string conversion, a slice that aliases another (append into shared "
+      "backing storage, a sub-slice kept after its buffer is reused), copy versus reference, a value captured where a fresh one was meant.",
+ "F": "the callers of the anchored code: the mode drivers and set-up code that wire readers, channels, goroutines and parameters together — a wrong "
+      "parameter handed down, two arguments of the same type swapped, a reader or connection wrapped twice or handed over at the wrong moment, a size or "
+      "count taken from the wrong object.",
+ "G": "Go-specific slips: a variable shadowed by := (an error or a counter that the outer scope never sees), a loop variable captured by a goroutine or "
+      "closure, a defer inside a loop, a method on a value receiver that was meant to mutate, a map iterated where order matters, an integer division "
+      "before a multiplication, a nil-versus-empty distinction lost.",
+ "H": "boundaries of collections and batches: the first or last element, the empty and the one-element collection, exact multiples of a batch or page "
+      "size, the element that straddles a batch boundary, off-by-one in a slice expression — it must only show at such a boundary.",
+})
+order = {"w8": "BCDA", "w9": "FGHE"}.get(wave, "ABCD")
 props = [json.loads(l) for l in open("/verif/properties.jsonl")]
 planted = {}
 for m in sorted(glob.glob("/verif/seeded/*/meta.json")):
